@@ -51,12 +51,14 @@ Record grec := mkG {
   g_div : span -> tyid -> tyid -> M unit;                              (* fn div *)
   g_divres : span -> tyid -> tyid -> M unit;                           (* fn div_res *)
   g_copy : tyid -> copymap -> M (tyid * copymap);                      (* fn inner_copy *)
-  g_neg : span -> tyid -> M unit                                       (* fn neg (since 612fb00) *)
+  g_neg : span -> tyid -> M unit;                                      (* fn neg (since 612fb00) *)
+  g_inside : span -> tyid -> list tyid -> list tyid -> M unit          (* the loop of fn check_not_inside (since 1d60c01) *)
 }.
 
 Definition g_bottom : grec :=
   mkG (fun _ _ _ _ => out_of_fuel) (fun _ _ => out_of_fuel) (fun _ _ _ _ => out_of_fuel)
-      (fun _ _ _ => out_of_fuel) (fun _ _ _ => out_of_fuel) (fun _ _ => out_of_fuel) (fun _ _ => out_of_fuel).
+      (fun _ _ _ => out_of_fuel) (fun _ _ _ => out_of_fuel) (fun _ _ => out_of_fuel) (fun _ _ => out_of_fuel)
+      (fun _ _ _ _ => out_of_fuel).
 
 (* fn unify: a fresh `seen` set *)
 Definition unify (R : grec) (sp : span) (a b : tyid) : M tyid :=
@@ -102,7 +104,11 @@ Definition arith_constr (k : arithk) (t : tyid) : constr :=
 Definition is_num (t : tyh) : bool := match t with HInt | HFloat => true | _ => false end.
 
 (* fn add, sub, mul, cmp (1799-1872, 1950-1978): identical but for the base pairs and the operator
-   name in the message *)
+   name in the message.  They (and neg, div, div_res) recurse over the components of tuples.  Since 1d60c01 the
+   occurs check in sub_unify (check_not_inside below) refuses to bind an unknown class to a tuple from which that
+   class is reachable through tuple components alone, so no tuple-only cycle is built and this recursion is over a
+   finite tree; before, `y = (y, 1) ; y + y` recursed for ever (OutOfFuel here, a stack overflow in the compiler).
+   One-step statement: Mismatch.unify_occurs_rejected. *)
 Definition arith_body (R : grec) (k : arithk) (sp : span) (a b : tyid) : M unit :=
   ta <- find_type a ;; tb <- find_type b ;;
   if is_unknown ta || is_unknown tb then
@@ -262,6 +268,31 @@ Fixpoint unify_fields (R : grec) (sp : span) (missing : ekind) (a_fields b_field
     end
   end.
 
+(* fn check_not_inside (since 1d60c01): an unknown type cannot become a tuple that contains itself as a (nested)
+   component.  One turn of the `while let Some(ty) = todo.pop()` loop; `todo` is the stack with its top first,
+   `seen` the set of representatives already visited.  Only tuples are descended into: lists, blobs and enums may
+   still be cyclic.  The state is only read. *)
+Definition inside_body (R : grec) (sp : span) (unknown : tyid) (todo seen : list tyid) : M unit :=
+  match todo with
+  | [] => ret tt
+  | ty :: todo =>
+    ty <- find ty ;;
+    if existsb (Pos.eqb ty) seen then g_inside R sp unknown todo seen else
+    let seen := ty :: seen in
+    t <- find_type ty ;;
+    match t with
+    | HTuple tys =>
+      let todo := rev tys ++ todo in
+      reps <- mapM find todo ;;
+      if existsb (Pos.eqb unknown) seen || existsb (Pos.eqb unknown) reps then fail KExotic sp
+      else g_inside R sp unknown todo seen
+    | _ => g_inside R sp unknown todo seen
+    end
+  end.
+
+Definition check_not_inside (R : grec) (sp : span) (unknown ty : tyid) : M unit :=
+  u <- find unknown ;; g_inside R sp u [ty] [].
+
 (* fn sub_unify (1422) *)
 Definition unify_body (R : grec) (sp : span) (a b : tyid) (seen : seenset) : M (tyid * seenset) :=
   a <- find a ;; b <- find b ;;
@@ -269,8 +300,8 @@ Definition unify_body (R : grec) (sp : span) (a b : tyid) (seen : seenset) : M (
   let seen := (b, a) :: (a, b) :: seen in
   ta <- find_type a ;; tb <- find_type b ;;
   seen' <- (match ta, tb with
-            | _, HUnknown => set_type b ta ;;; ret seen
-            | HUnknown, _ => set_type a tb ;;; ret seen
+            | _, HUnknown => check_not_inside R sp b a ;;; set_type b ta ;;; ret seen
+            | HUnknown, _ => check_not_inside R sp a b ;;; set_type a tb ;;; ret seen
             | HTy, HTy | HVoid, HVoid | HNil, HNil | HInt, HInt | HFloat, HFloat | HBool, HBool
             | HStr, HStr => ret seen
             | HList x, HList y => r <- g_unify R sp x y seen ;; ret (snd r)
@@ -365,7 +396,8 @@ Definition copy_body (R : grec) (old : tyid) (m : copymap) : M (tyid * copymap) 
   end.
 
 Definition gstep (R : grec) : grec :=
-  mkG (unify_body R) (check_body R) (arith_body R) (div_body R) (divres_body R) (copy_body R) (neg_body R).
+  mkG (unify_body R) (check_body R) (arith_body R) (div_body R) (divres_body R) (copy_body R) (neg_body R)
+      (inside_body R).
 
 Fixpoint gfix (fuel : nat) : grec :=
   match fuel with
